@@ -738,6 +738,24 @@ func (t *tr) rangeStmt(x *ast.RangeStmt, k func() string) string {
 		fvNames = append(fvNames, n)
 		fvTys = append(fvTys, lc.types_[n])
 	}
+	// Gallina scoping is by name: a variable DECLARED inside the body with the
+	// name of an accumulator / free variable would be captured by the recursive
+	// call at the end of the body, where Go still means the outer one
+	outerNames := map[string]bool{}
+	for _, n := range accNames {
+		outerNames[n] = true
+	}
+	for _, n := range fvNames {
+		outerNames[n] = true
+	}
+	ast.Inspect(x.Body, func(m ast.Node) bool {
+		if id, ok := m.(*ast.Ident); ok && id.Name != "_" {
+			if obj := t.info.Defs[id]; obj != nil && outerNames[san(id.Name)] {
+				fail(t.fset, id, "%s declared inside the loop shadows an outer variable the loop uses", id.Name)
+			}
+		}
+		return true
+	})
 	fvArgs := ""
 	if len(fvNames) > 0 {
 		fvArgs = " " + strings.Join(fvNames, " ")
